@@ -414,10 +414,15 @@ type ProxyOptions struct {
 	WorkDir    string // config file and log are written here
 	KeyDir     string
 	BackendURL string
-	ChainID    int64         // < 0: not configured (the proxy queries net_version at start)
-	ExtraYAML  string        // appended to the config verbatim
-	Env        []string      // extra environment variables for the process (e.g. GORACE=...)
-	StartWait  time.Duration // default 60s
+	ChainID    int64    // < 0: not configured (the proxy queries net_version at start)
+	ExtraYAML  string   // appended to the config verbatim
+	Env        []string // extra environment variables for the process (e.g. GORACE=...)
+	// FileWalletYAML, when not empty, replaces the body of the default "fileWallet:" block (path,
+	// disableListener, filenames.primaryExt/passwordExt) verbatim; the caller writes every line,
+	// indented by two blanks (added for C09 round 3: metadata-file layouts, default password file,
+	// signer cache settings).  Empty = the default block, as before.
+	FileWalletYAML string
+	StartWait      time.Duration // default 60s
 }
 
 type Proxy struct {
@@ -466,7 +471,11 @@ func startProxyOnce(o ProxyOptions) (*Proxy, error) {
 		return nil, err
 	}
 	var cfg strings.Builder
-	fmt.Fprintf(&cfg, "fileWallet:\n  path: %q\n  disableListener: true\n  filenames:\n    primaryExt: %q\n    passwordExt: %q\n", o.KeyDir, PrimaryExt, PasswordExt)
+	if o.FileWalletYAML != "" {
+		cfg.WriteString("fileWallet:\n" + strings.TrimRight(o.FileWalletYAML, "\n") + "\n")
+	} else {
+		fmt.Fprintf(&cfg, "fileWallet:\n  path: %q\n  disableListener: true\n  filenames:\n    primaryExt: %q\n    passwordExt: %q\n", o.KeyDir, PrimaryExt, PasswordExt)
+	}
 	fmt.Fprintf(&cfg, "server:\n  address: \"127.0.0.1\"\n  port: %d\n", port)
 	fmt.Fprintf(&cfg, "backend:\n  url: %q\n", o.BackendURL)
 	if o.ChainID >= 0 {
